@@ -42,6 +42,11 @@ Definition g_read (g : gridT) (q : tread) : tans :=
   | QValues => AMatrix (map (fun r => gpad (ncols g) (map fst r)) (grows g))
   | QColumnValues x => AList (map (fun r => fst (nth (Z.to_nat (nx x)) r empty_cell)) (grows g))
   | QRowWidth y => ASize (Z.of_nat (length (g_row (ny y) g))) 0
+  | QArea x y z t =>
+      let x := nx x in let z := nx z in let y := ny y in let t := ny t in
+      AMatrix (map (fun r => gpad (Z.min (z + 1) (ncols g) - x) (map fst (firstn (Z.to_nat (z + 1 - x)) (skipn (Z.to_nat x) r))))
+                   (firstn (Z.to_nat (t + 1 - y)) (skipn (Z.to_nat y) (grows g))))
+  | QGetCell x y => ACell (nth (Z.to_nat (nx x)) (g_row (ny y) g) empty_cell)
   end.
 
 (* well-formedness of a model state: every repeat >= 1, at the three levels *)
